@@ -35,7 +35,11 @@ META = {
 # engine side of "the position only moves forward": the positions the arch-v2 engine hands to Source.Ack (event-log equality of the
 # real funnel.Worker with the Lean engine model; Worker.Nack refuses to acknowledge a prefix that holds an empty source position)
 from funnel_common import funnel_job
-PROP["jobs"].append(funnel_job("C02", 4000, 100000))
+import re as _re
+_fj = funnel_job("C02", 4000, 100000)
+# the engine acknowledged an empty / nil position to the source: the durable position would be overwritten with nothing
+_fj["relevant"] = lambda case: bool(_re.search(r"A\[(?:[^\]]*,)?[en](?:,[^\]]*)?\]", case["impl"]))
+PROP["jobs"].append(_fj)
 PROP["lean_modules"] += ["ConduitModel.Props.C04"]
 PROP["rule"] += (" || funnel: see C04/C09 (one case = tree, window, batches, plugin scripts; a tenth of the cases from the bad-source-position "
                  "family: empty / nil source positions meeting nacks, partial DLQ acknowledgments and window refusals)")
